@@ -372,7 +372,7 @@ def classify(e, lines, decls, reserved93):
     ident = offending_ident(e)
     tier = 0 if e.rule in LEXICAL else 1 if e.rule in NAMING else 2
     if e.rule == "S-ident":
-        d = decls.get(ident.lower()) if ident else None
+        d = (decls.get(ident.lower()) or near_decl(decls, ident)) if ident else None
         sig["decl"] = primary(d) if d else "use:" + where_of(lines, e.line, ident)
         if sig.get("name") == "reserved" and ident:
             sig["word"] = "vhdl93" if ident.lower() in reserved93 else "vhdl2008"
@@ -404,6 +404,7 @@ def classify(e, lines, decls, reserved93):
         sig["where"] = re.sub(r"^(signal assignment|variable assignment|initial value|association of port|argument|index of target)\b.*$",
                               r"\1", sig["where"])
     if e.rule == "S-struct":
+        sig.setdefault("near", None)
         m = re.search(r"of undeclared entity (\S+)|entity (\S+) has no architecture|entity (\S+) has not been analysed", e.msg)
         if m:
             nm = next(g for g in m.groups() if g)
